@@ -166,7 +166,7 @@ def run_case(sp, rng, c, want_coq=True):
             bad.append(("linop-apply", "fwt/iwt outputs", "linop outputs differ", max(relerr(ya, y), relerr(za, z))))
     if str(y.dtype) != c["dtype"] or str(z.dtype) != c["dtype"]:
         bad.append(("dtype", c["dtype"], [str(y.dtype), str(z.dtype)], 1.0))
-    if want_coq and (x.size + 2 * dec["arg"].size + 4 * y.size + 2 * z.size + rc["out"].size) <= 1600:
+    if want_coq and (x.size + 2 * dec["arg"].size + 4 * y.size + 2 * z.size + rc["out"].size) <= 700:
         dc = DCODE[c["dtype"]]
         exprs.append("chk_fwt %s %s %s %s %s %s %s %s %s %s %s" % (
             L.zlist(shape), L.zzlist(bits(x)), L.zlist(dec["arg"].shape), L.zzlist(bits(dec["arg"])),
